@@ -4,7 +4,8 @@
 V="$(cd "$(dirname "$0")/.." && pwd)"
 WT=${SEED_WT:-/tmp/wt/regress}
 cd /repo && git worktree remove --force "$WT" 2>/dev/null; git worktree add -q "$WT" HEAD || exit 9
-export VERIF_REPO="$WT" CARGO_NET_OFFLINE=true
+export VERIF_REPO="$WT" CARGO_NET_OFFLINE=true VERIF_EVIDENCE_DIR=${VERIF_EVIDENCE_DIR:-/tmp/evid_regress}
+mkdir -p "$VERIF_EVIDENCE_DIR"
 seeds="$@"; [ -z "$seeds" ] && seeds=$(ls "$V/seeded")
 for s in $seeds; do
   p=${s%%-*}
@@ -18,4 +19,5 @@ for s in $seeds; do
   echo "$s: check=$chk rc=$rc $(grep -E '^VIOLATION|^INCONCLUSIVE' /tmp/regress_$s.log | head -1 | cut -c1-120) $(grep -E 'what:' /tmp/regress_$s.log | head -1 | cut -c1-160)"
 done
 cd /repo && git worktree remove --force "$WT"
+[ -n "$KEEP_ALT_CACHE" ] || true
 echo REGRESS-DONE
